@@ -934,8 +934,81 @@ func (c *Ctx) keepSummary(a *retryAnchors, g *ssa.Function) *keepSum {
 func (c *Ctx) ruleWrapKeepsHandle(rr *RuleRep) {
 	impl := c.Func("wrapErrorImpl")
 	wr := c.Func("wrapErrorWithRetry")
-	if impl == nil || wr == nil {
+	if wr == nil {
 		rr.Lost("wrapErrorImpl/wrapErrorWithRetry", "not found")
+		return
+	}
+	if impl == nil {
+		// no shared implementation: wrapErrorWithRetry decides itself; every return that is not the handle-carrying error
+		// must lie behind an identity test of the cause against nil or io.EOF
+		if len(wr.Params) == 0 {
+			rr.Lost("wrapErrorWithRetry", "no cause parameter")
+			return
+		}
+		cause := ssa.Value(wr.Params[0])
+		identity := func(v ssa.Value) bool {
+			bin, ok := v.(*ssa.BinOp)
+			if !ok || bin.Op != token.EQL {
+				return false
+			}
+			other := bin.Y
+			if bin.Y == cause {
+				other = bin.X
+			} else if bin.X != cause {
+				return false
+			}
+			return isNilConst(other) || c.globalLoadName(other) == "io.EOF"
+		}
+		guarded := func(at ssa.Instruction) bool {
+			for _, b := range wr.Blocks {
+				iff := blockIf(b)
+				if iff == nil || !DominatedByEdge(wr, at, b, 0, PathQ{}) {
+					continue
+				}
+				if identity(iff.Cond) {
+					return true
+				}
+				if phi, ok := iff.Cond.(*ssa.Phi); ok {
+					// a || b || …: each operand an identity test (the constant-true edges come from the tests that held)
+					all := len(phi.Edges) > 0
+					for i, e := range phi.Edges {
+						if kb, isK := constBool(e); isK {
+							pb := blockIf(phi.Block().Preds[i])
+							if !kb || pb == nil || !identity(pb.Cond) || phi.Block().Preds[i].Succs[0] != phi.Block() {
+								all = false
+							}
+							continue
+						}
+						if !identity(e) {
+							all = false
+						}
+					}
+					if all {
+						return true
+					}
+				}
+			}
+			return false
+		}
+		bad, has := false, false
+		for _, ret := range returnsOf(wr) {
+			v := c.Resolve(ret.Results[0])
+			if al, ok := v.(*ssa.Alloc); ok && typeName(al.Type()) == "errorWithRetry" {
+				has = true
+				continue
+			}
+			if !guarded(ret) {
+				bad = true
+				rr.Bad("wrapErrorWithRetry/pass-through", ret.Pos(), "wrapErrorWithRetry returns %s without a retry handle for causes other than nil and io.EOF: a request interrupted by such a cause is never retransmitted", describeVal(v))
+			}
+		}
+		if !has {
+			bad = true
+			rr.Bad("wrapErrorWithRetry/handle", wr.Pos(), "wrapErrorWithRetry never attaches the retry handle")
+		}
+		if !bad {
+			rr.OK("wrapErrorWithRetry/pass-through", wr.Pos(), "the handle is dropped only behind an identity test of the cause against nil or io.EOF")
+		}
 		return
 	}
 	bad := false
